@@ -34,6 +34,10 @@ UNITS = {
         'title': 'float overflow guard (closure extracted from fn float): all f64 bit patterns',
         'witness': ['witness-k7'], 'replay': 'replay-k7',
     },
+    'K7s': {
+        'engine': 'kani', 'crate': 'toml_edit', 'harnesses': ['k7s_inf', 'k7s_nan'], 'complete': True, 'timeout': 600,
+        'title': 'special-float: the six spellings [+-](inf|nan) through the real parser: value class and sign bit (complete)',
+    },
     'K6e': {
         'engine': 'kani', 'crate': 'toml_edit',
         'harnesses': ['k6_edit_serialize_u64', 'k6_edit_serialize_i64', 'k6_edit_serialize_narrow',
@@ -142,9 +146,9 @@ UNITS = {
 PLAN = {
     'C10': {'quick': ['V1', 'K1'], 'thorough': ['V1', 'K1']},
     'C04': {'quick': ['V1', 'V3', 'V4', 'V5', 'V6', 'V7', 'K1', 'K12'], 'thorough': ['V1', 'V3', 'V4', 'V5', 'V6', 'V7', 'K1', 'K12', 'K8t', 'K3t', 'K5']},
-    'C11': {'quick': ['K7', 'K6e', 'K6t', 'K6d', 'V8'], 'thorough': ['K7', 'K6e', 'K6t', 'K6d', 'V8']},
+    'C11': {'quick': ['K7', 'K7s', 'K6e', 'K6t', 'K6d', 'V8'], 'thorough': ['K7', 'K7s', 'K6e', 'K6t', 'K6d', 'V8']},
     'C01': {'quick': ['K1', 'K7', 'V4', 'V8', 'K2'], 'thorough': ['K1', 'K7', 'V4', 'V8', 'K2', 'K2y', 'K5']},
-    'C02': {'quick': ['K2', 'V5', 'V7', 'V8'], 'thorough': ['K2', 'K2y', 'V5', 'V7', 'V8', 'K5']},
+    'C02': {'quick': ['K2', 'K7s', 'V5', 'V7', 'V8'], 'thorough': ['K2', 'K2y', 'K7s', 'V5', 'V7', 'V8', 'K5']},
     'C05': {'quick': ['V3', 'K12'], 'thorough': ['V3', 'K12']},
     'C12': {'quick': ['V4', 'V5', 'V6', 'V7', 'K2', 'K3q'], 'thorough': ['V4', 'V5', 'V6', 'V7', 'K2', 'K2y', 'K3q', 'K3t', 'K3a']},
     'C14': {'quick': ['K11'], 'thorough': ['K11']},
